@@ -85,6 +85,9 @@ pub struct Layout {
     pub pair_size: usize,
     pub total: usize,
     pub cap: usize,
+    /// offset of the value field inside a pair (used for zero-sized values, whose address carries
+    /// no slot information beyond it)
+    pub val_off: usize,
 }
 
 /// Discover the layout of `Map<Key, Val, N>` from the address of the first yielded key.
@@ -93,16 +96,17 @@ pub fn map_layout<const N: usize>() -> Layout {
     let pair_size = std::mem::size_of::<(Key, Val)>();
     let total = std::mem::size_of::<MapN<N>>();
     if N == 0 {
-        return Layout { pairs_off: 0, pair_size, total, cap: 0 };
+        return Layout { pairs_off: 0, pair_size, total, cap: 0, val_off: 0 };
     }
     ctl::quietly(|| {
         let t = (Key::new(0, 4_000_000_001), Val::new(4_000_000_001, 0));
         let key_in_pair = (&t.0 as *const Key as usize) - (&t as *const (Key, Val) as usize);
+        let val_off = (&t.1 as *const Val as usize) - (&t as *const (Key, Val) as usize);
         let mut m: MapN<N> = Map::new();
         m.insert(Key::new(0, 4_000_000_002), Val::new(4_000_000_002, 0));
         let base = &m as *const MapN<N> as usize;
         let k0 = m.iter().next().unwrap().0 as *const Key as usize;
-        Layout { pairs_off: k0 - base - key_in_pair, pair_size, total, cap: N }
+        Layout { pairs_off: k0 - base - key_in_pair, pair_size, total, cap: N, val_off }
     })
 }
 
@@ -110,16 +114,17 @@ pub fn set_layout<const N: usize>() -> Layout {
     let pair_size = std::mem::size_of::<(Key, ())>();
     let total = std::mem::size_of::<SetN<N>>();
     if N == 0 {
-        return Layout { pairs_off: 0, pair_size, total, cap: 0 };
+        return Layout { pairs_off: 0, pair_size, total, cap: 0, val_off: 0 };
     }
     ctl::quietly(|| {
         let t = (Key::new(0, 4_000_000_003), ());
         let key_in_pair = (&t.0 as *const Key as usize) - (&t as *const (Key, ()) as usize);
+        let val_off = (&t.1 as *const () as usize) - (&t as *const (Key, ()) as usize);
         let mut s: SetN<N> = Set::new();
         s.insert(Key::new(0, 4_000_000_004));
         let base = &s as *const SetN<N> as usize;
         let k0 = s.iter().next().unwrap() as *const Key as usize;
-        Layout { pairs_off: k0 - base - key_in_pair, pair_size, total, cap: N }
+        Layout { pairs_off: k0 - base - key_in_pair, pair_size, total, cap: N, val_off }
     })
 }
 
@@ -133,6 +138,17 @@ impl Layout {
         }
         let off = addr as i64 - (base + self.pairs_off) as i64;
         (off.div_euclid(self.pair_size as i64), inside)
+    }
+    /// the same for a reference to a zero-sized value: its address is `slot start + val_off`
+    /// (possibly one past the last byte of the pair, hence the inclusive upper bound).
+    pub fn locate_zst(&self, base: usize, addr: usize) -> (i64, bool) {
+        let inside = addr >= base && addr <= base + self.total;
+        if self.pair_size == 0 {
+            return (0, inside);
+        }
+        let off = addr as i64 - (base + self.pairs_off + self.val_off) as i64;
+        let ok = off >= 0 && off % self.pair_size as i64 == 0;
+        (off.div_euclid(self.pair_size as i64), inside && ok)
     }
     /// Overwrite the bytes of slots `len..cap` with 0xA5 (they are uninitialised or
     /// moved-out from the API's point of view), so that any later read of them yields an
